@@ -154,8 +154,8 @@ structure RC where
   blocks : List Block := [{}]
   modifiedCtx : Option Json := none
   partials : List (Str × Tmpl) := []
-  pbStack : List Tmpl := []
-  pbDepth : Nat := 0
+  pbStack : List (Tmpl × Option Nat) := []     -- innermost LAST; each remembers the binding where it was written
+  pbBinding : Option Nat := none               -- the entry `@partial-block` denotes
   localHelpers : List (Str × HelperKind) := []
   currentTemplate : Option Str := none
   rootTemplate : Option Str := none
@@ -701,7 +701,7 @@ def optStr (o : Option Str) : Str := match o with | some s => s | none => str "-
 def rcStateLine (rc : RC) : Str :=
   let b := rc.blocks.head?
   str "{de=" ++ (if rc.disableEscape then str "1" else str "0") ++
-  str ",pb=" ++ (if (rc.pbStack[rc.pbDepth]?).isSome then str "1" else str "0") ++
+  str ",pb=" ++ (if (rc.pbBinding.bind (fun i => rc.pbStack[i]?)).isSome then str "1" else str "0") ++
   str ",ct=" ++ optStr rc.currentTemplate ++
   str ",rt=" ++ optStr rc.rootTemplate ++
   str ",bp=" ++ (match b with | some b => joinWith ['/'] b.basePath | none => str "!") ++
@@ -1064,8 +1064,12 @@ mutual
   def renderTemplate (reg : Registry) (root : Json) : Nat → Tmpl → RM Unit
     | 0, _ => outOfFuel
     | fuel + 1, t => do
+      let rc ← get
+      let nameBefore := rc.currentTemplate
       modify (fun rc => { rc with currentTemplate := t.name })
       renderElems reg root fuel t.name t.elements t.mapping
+      -- an unnamed inner template (block body, else branch) hands back to the template it is part of
+      if t.name.isNone then modify (fun rc => { rc with currentTemplate := nameBefore }) else pure ()
 
   /-- `partial::expand_partial` -/
   def expandPartial (reg : Registry) (root : Json) : Nat → DecoI → RM Unit
@@ -1082,7 +1086,8 @@ mutual
       else
         -- find_partial
         let found : Option Tmpl :=
-          let inl := if tname == PARTIAL_BLOCK then rc.pbStack[rc.pbDepth]? else assocGet rc.partials tname
+          let inl := if tname == PARTIAL_BLOCK then (rc.pbBinding.bind (fun i => rc.pbStack[i]?)).map (·.1)
+                     else assocGet rc.partials tname
           match inl with
           | some p => some p
           | none =>
@@ -1095,8 +1100,12 @@ mutual
         match found with
         | none => throwR (.partialNotFound tname)
         | some partialT => do
-          if tname == PARTIAL_BLOCK then modify (fun rc => { rc with pbDepth := rc.pbDepth + 1 })
-          else modify (fun rc => { rc with pbDepth := rc.pbDepth - 1 })
+          -- what `@partial-block` denotes is a property of this inclusion: it is put back afterwards
+          let bindingBefore := rc.pbBinding
+          if tname == PARTIAL_BLOCK then
+            -- inside the body `@partial-block` means what it meant where the body was written
+            modify (fun rc => { rc with pbBinding := (rc.pbBinding.bind (fun i => rc.pbStack[i]?)).bind (·.2) })
+          else pure ()
           let hashCtx := d.hash.map (fun (k, v) => (k, v.json))
           let merged ← (match d.params[0]? with
             | some p =>
@@ -1110,15 +1119,17 @@ mutual
               pure (mergeJson r.asJson hashCtx))
           let rc ← get
           let currentBlocks := rc.blocks
-          modify (fun rc => { rc with
-            blocks := [{ baseValue := some merged }],
-            pbStack := (match d.template with | some pb => pb :: rc.pbStack | none => rc.pbStack),
-            indentString := d.indent })
+          modify (fun rc =>
+            let rc := { rc with blocks := [{ baseValue := some merged }], indentString := d.indent }
+            match d.template with
+            | some pb => { rc with pbStack := rc.pbStack ++ [(pb, rc.pbBinding)], pbBinding := some rc.pbStack.length }
+            | none => rc)
           -- the partial is rendered; its result is examined only after the cleanup
           fun rc0 out0 =>
             let cleanup (rc : RC) : RC :=
               { rc with
-                pbStack := (if d.template.isSome then rc.pbStack.drop 1 else rc.pbStack),
+                pbStack := (if d.template.isSome then rc.pbStack.dropLast else rc.pbStack),
+                pbBinding := bindingBefore,
                 blocks := currentBlocks,
                 currentTemplate := currentBefore,
                 indentString := indentBefore }
